@@ -8,6 +8,7 @@ import (
 	"flag"
 	"fmt"
 	"io"
+	"math"
 	"net"
 	"os"
 	"runtime/debug"
@@ -150,6 +151,26 @@ func shapeVal(s string, u *pb.Update) {
 		u.Val = &pb.TypedValue{Value: &pb.TypedValue_AnyVal{AnyVal: a}}
 	case "decimal_nil":
 		u.Val = &pb.TypedValue{Value: &pb.TypedValue_DecimalVal{}}
+	case "decimal_big": // YANG allows fraction-digits 1..18; the field is a plain uint32
+		u.Val = &pb.TypedValue{Value: &pb.TypedValue_DecimalVal{DecimalVal: &pb.Decimal64{Digits: 12345, Precision: 19}}}
+	case "decimal_max":
+		u.Val = &pb.TypedValue{Value: &pb.TypedValue_DecimalVal{DecimalVal: &pb.Decimal64{Digits: math.MinInt64, Precision: math.MaxUint32}}}
+	case "leaflist_decimal":
+		u.Val = &pb.TypedValue{Value: &pb.TypedValue_LeaflistVal{LeaflistVal: &pb.ScalarArray{Element: []*pb.TypedValue{
+			{Value: &pb.TypedValue_DecimalVal{DecimalVal: &pb.Decimal64{Digits: 1, Precision: 400}}}, {Value: &pb.TypedValue_DecimalVal{}}}}}}
+	case "leaflist_nested":
+		u.Val = &pb.TypedValue{Value: &pb.TypedValue_LeaflistVal{LeaflistVal: &pb.ScalarArray{Element: []*pb.TypedValue{
+			{Value: &pb.TypedValue_LeaflistVal{LeaflistVal: &pb.ScalarArray{Element: []*pb.TypedValue{{Value: &pb.TypedValue_LeaflistVal{}}}}}}}}}}
+	case "leaflist_empty":
+		u.Val = &pb.TypedValue{Value: &pb.TypedValue_LeaflistVal{LeaflistVal: &pb.ScalarArray{}}}
+	case "double_nan":
+		u.Val = &pb.TypedValue{Value: &pb.TypedValue_DoubleVal{DoubleVal: math.NaN()}}
+	case "uint_max":
+		u.Val = &pb.TypedValue{Value: &pb.TypedValue_UintVal{UintVal: math.MaxUint64}}
+	case "bytes_empty":
+		u.Val = &pb.TypedValue{Value: &pb.TypedValue_BytesVal{}}
+	case "proto_bytes":
+		u.Val = &pb.TypedValue{Value: &pb.TypedValue_ProtoBytes{ProtoBytes: []byte{0xff, 0xff}}}
 	case "dep_json":
 		u.Value = &pb.Value{Type: pb.Encoding_JSON, Value: []byte(`1`)}
 	case "dep_bad":
@@ -358,7 +379,10 @@ type respVec struct {
 	Ndel                              int
 }
 
-var ingestSrv *fakeServer
+// a pool of scripted servers: every vector opens five connections, and one destination
+// address runs out of ephemeral source ports (TIME_WAIT) after about 28000 of them
+var ingestSrvs []*fakeServer
+var ingestUnreached int64
 var ingestSeq int64
 
 func buildResponses(v respVec) []*pb.SubscribeResponse {
@@ -409,7 +433,9 @@ func buildResponses(v respVec) []*pb.SubscribeResponse {
 }
 
 func ingestResp(v respVec) []step {
-	target := fmt.Sprintf("t%d", atomic.AddInt64(&ingestSeq, 1))
+	seq := atomic.AddInt64(&ingestSeq, 1)
+	target := fmt.Sprintf("t%d", seq)
+	ingestSrv := ingestSrvs[int(seq)%len(ingestSrvs)]
 	ingestSrv.mu.Lock()
 	ingestSrv.custom[target] = buildResponses(v)
 	ingestSrv.mu.Unlock()
@@ -443,6 +469,10 @@ func ingestResp(v respVec) []step {
 		})
 		steps = append(steps, step{"name": "cli/" + dt, "outcome": o, "site": site, "before": "", "after": "", "single": true})
 	}
+	// an outcome "error" only counts if the message was actually served to the client
+	if n := ingestSrv.opened(target); n < len(steps) {
+		atomic.AddInt64(&ingestUnreached, int64(len(steps)-n))
+	}
 	return steps
 }
 
@@ -472,11 +502,14 @@ func ingestRun(args []string) error {
 	}
 	cache.Now = func() time.Time { return time.Unix(0, 50) } // metadata leaves older than the vectors' timestamps
 	if *family == "resp" {
-		ingestSrv, err = newFakeServer(func(string, string, int, int) {})
-		if err != nil {
-			return err
+		for i := 0; i < 8; i++ {
+			srv, err := newFakeServer(func(string, string, int, int) {})
+			if err != nil {
+				return err
+			}
+			defer srv.stop()
+			ingestSrvs = append(ingestSrvs, srv)
 		}
-		defer ingestSrv.stop()
 	}
 	var wg sync.WaitGroup
 	var panics int64
@@ -515,7 +548,7 @@ func ingestRun(args []string) error {
 	}
 	wg.Wait()
 	ev := ss.close()
-	fmt.Printf("DRV ingest %s vectors=%d events=%d panics=%d\n", *family, len(lines), ev, panics)
+	fmt.Printf("DRV ingest %s vectors=%d events=%d panics=%d unreached=%d\n", *family, len(lines), ev, panics, atomic.LoadInt64(&ingestUnreached))
 	return nil
 }
 
